@@ -1549,6 +1549,9 @@ _done:
 _ret_:
 %ifdef SAFE_DATA
         clear_all_zmms_asm
+        ; Clear tweak values (16*8 bytes)
+        vmovdqa64       [TW], zmm0
+        vmovdqa64       [TW + 4*16], zmm0
         ; Clear expanded keys (16*15 bytes)
         vmovdqa64       [keys], zmm0
         vmovdqa64       [keys + 4*16], zmm0
